@@ -1407,7 +1407,7 @@ vnacal_t *vnacal_load(const char *pathname,
     }
     yaml_parser_set_input_file(&parser, fp);
     if (!yaml_parser_load(&parser, &vls.vls_document)) {
-	if (parser.error == YAML_MEMORY_ERROR) {
+	if (parser.error == YAML_MEMORY_ERROR || parser.problem == NULL) {
 	    errno = ENOMEM;
 	    _vnacal_error(vcp, VNAERR_SYSTEM, "yaml_parser_load: %s: %s",
 		    vcp->vc_filename, strerror(errno));
